@@ -2,7 +2,7 @@
    Definitions only; lemmas live in Interner/{Lemmas,Conc,Sort,EnvVar}.v.
 
    SessionGlobals (one process-wide value behind ONE Mutex, `with_session_globals`) holds
-     symbol_interner : StringInterner<StringBackend<usize>>   -- strings, deduplicated, ids = insertion index
+     symbol_interner : StringInterner<BucketBackend<usize>>   -- strings, deduplicated, ids = insertion index
      expr_storage / type_storage : SlotMap<_, _>              -- arenas, never deduplicated, never freed
    Every operation below is executed by the Rust code inside one `with_session_globals` closure, i.e. atomically
    with respect to all other operations (trusted: std::sync::Mutex). *)
@@ -39,7 +39,10 @@ Definition intern (g : glob) (s : string) : glob * nat :=
   end.
 
 (* Symbol::as_str / Display for Symbol = with_session_globals(|g| g.symbol_interner.resolve(id)) ; None = the
-   `.expect("invalid symbol")` panic *)
+   `.expect("invalid symbol")` panic.  The model returns the string BY VALUE.  The Rust function returns a reference into
+   the interner's storage that outlives the lock; that agrees with a copy only if interned strings never move, which holds
+   for string_interner's BucketBackend (used since the fix of finding F24) and did not hold for StringBackend (one growing
+   buffer).  checks/C19.py probes it on every run. *)
 Definition resolve (g : glob) (i : nat) : option string := nth_error (tbl g) i.
 
 (* SessionGlobals::store_expr / store_type (`into_id`) : SlotMap::insert, always a fresh key *)
